@@ -14,6 +14,7 @@ pub mod c12;
 pub mod cindex;
 pub mod dgram;
 pub mod mtud;
+pub mod streams;
 pub mod wire;
 
 use crate::{Rng, Runner};
@@ -45,6 +46,7 @@ pub fn lookup(name: &str) -> Option<(&'static str, GenFn)> {
         "cindex" => (cindex::CINDEX_RULE, cindex::cindex as GenFn),
         "dgram" => (dgram::DGRAM_RULE, dgram::dgram as GenFn),
         "mtud" => (mtud::MTUD_RULE, mtud::mtud as GenFn),
+        "streams" => (streams::STREAMS_RULE, streams::streams as GenFn),
         _ => return None,
     })
 }
